@@ -714,6 +714,10 @@ def _check_band(ctx, who, asig, pre, ratio, ratio_eff, lo, hi, prefix):
         ctx.observe('bandwidth-peak-at-first-or-last-target')
     lim = float(np.max(s)) * ratio_eff
     open_lo, open_hi = bool(s[0] > lim), bool(s[-1] > lim)
+    if 0 < ratio_eff <= 1e-2 and not (open_lo and open_hi):
+        ctx.observe('bandwidth-ratio<=1e-2-deciding-an-interior-limit')
+    if ratio_eff >= 0.999 and len(first_ok) + len(last_ok) > 0 and int(np.sum(s > lim)) > 1:
+        ctx.observe('bandwidth-ratio>=0.999-with-more-than-one-sample-above')
     if open_lo or open_hi:
         # the band is still open at an end of the smoothing-frequency range: the limit is that end itself
         ctx.observe('bandwidth-above-limit-at:%s' % ('both ends' if open_lo and open_hi else ('first target' if open_lo else 'last target')))
@@ -1288,6 +1292,18 @@ def gen_signal_case(rng, long_n=None, default_targets=False):
             'matrix_form': [None, None, 'f32', 'fortran', 'readonly', 'nested-list'][int(rng.integers(6))],
             'random_matrix_seed': int(rng.integers(1 << 30)) if rng.random() < 0.3 else None,
             'second_seed': int(rng.integers(1 << 30)), 'reject_probes': bool(rng.random() < 0.1)}
+    small = (case['ratio'] is not None and 0 < case['ratio'] <= 1e-2) or (case['sig_ratio'] is not None and 100 <= case['sig_ratio'] <= 1e13)
+    if long_n is None and small and n >= 16 and rng.random() < 0.8:
+        # ratios next to the lower end of [0, 1) decide something only when the smoothed spectrum spans as many decades: a short
+        # Gaussian pulse (spectrum exp(-2 (pi sigma f dt)^2), down to the rounding floor) with targets across the whole grid
+        sig = float(rng.uniform(1.2, 5.0))
+        i0 = float(rng.uniform(0.3, 0.7)) * (n - 1)
+        case['values'] = float(10 ** rng.uniform(-3, 3)) * np.exp(-0.5 * ((np.arange(n) - i0) / sig) ** 2)
+        case['values_form'] = [None, 'list', 'readonly'][int(rng.integers(3))]
+        case['how'] = ['ctor', 'setter', 'setter_frequencies'][int(rng.integers(3))]
+        case['targets'] = np.sort(10 ** rng.uniform(np.log10(grid[1]), np.log10(grid[-1]), size=int(rng.integers(12, 48))))
+        case['targets_form'] = [None, 'list', 'readonly'][int(rng.integers(3))]
+        rcls, tkind, how = 'gauss-pulse(smoothed spectrum over many decades)', 'in', case['how']
     if long_n is not None:
         case['long'] = {'seed': int(rng.integers(1 << 30)), 'n': int(long_n)}
         case['random_matrix_seed'] = None
@@ -2000,7 +2016,7 @@ def run_history_case(eqsig, ctx, c):
                     else:
                         raise IndexError('skipped')
                 else:
-                    s.add_series(np.ones(len(np.asarray(s.values)) + 1 + op.get('which', 0)))
+                    s.add_series(np.ones(max(1, len(np.asarray(s.values)) + [-1, 1, 2][op.get('which', 0) % 3])))
                 ctx.observe('refused-op-accepted:%s' % kind)
             except Exception as e:      # noqa
                 ctx.observe('history-op:refused:%s(%s)' % (kind, type(e).__name__))
